@@ -8,12 +8,13 @@
    exhaustion (C04_total_without_adjacent); and the ledger bound / loop termination it rests on.
    Not theorems: (a) adjacent groups and adjacent commands (the retry loop is fuelled in the model;
    its panic sites are explicit outcomes the differential run compares; one class is a known
-   finding), (b) the panic sites of rendering and completion (compared per run), (c) purity --
+   finding), (b) the panic sites of console rendering and completion (compared per run; for
+   documentation generation see C04_documentation_returns below), (c) purity --
    Gallina functions are pure by construction; the implementation is re-run on the same
    OptionParser and after other operations (driver modes `twice`, `history`). *)
 From Coq Require Import List Arith.
-From BpafModel Require Import Conv Wf.
-From BpafLemmas Require Import Tac EvalEq Reach LoopLaws TotalLaws AbsSim AbsTotal ConvRefine ConvTotal.
+From BpafModel Require Import Conv Wf Docs.
+From BpafLemmas Require Import Tac EvalEq Reach LoopLaws TotalLaws AbsSim AbsTotal ConvRefine ConvTotal HtmlLaws BalLaws.
 Import ListNotations.
 
 (* `remaining <= number of items` (and the item-state vector has the length of the item list)
@@ -91,6 +92,17 @@ Proof.
   intros env p s Hp Hg. split; [exact (proj1 (eval_total_all env) p Hp s Hg)|exact (proj1 (eval_keepsG env p s Hg))].
 Qed.
 Print Assumptions C04_eval_total_without_adjacent.
+
+(* documentation generation returns, for EVERY definition (adjacent groups included) whose own documents
+   are what the Doc API can build (`odok`): section extraction never runs out of fuel, the group loop of
+   the item writer terminates, and neither renderer meets a block it answers with `todo!()`.  The same for
+   the document of --help (C12_help_document_total_balanced); its console rendering is tied per run *)
+Theorem C04_documentation_returns :
+  forall env app o full, odok o ->
+  (exists d html, collect_html env app (ometa_of o) (oinfo_of o) = Some d /\ render_html full d = Some html) /\
+  (exists d man, manpage_doc env app (ometa_of o) (oinfo_of o) = Some d /\ render_roff (manpage_th app) d = Some man).
+Proof. intros env app o full Ho. split; [exact (render_html_returns env app o full Ho)|exact (render_manpage_returns env app o Ho)]. Qed.
+Print Assumptions C04_documentation_returns.
 
 (* the premises are met: a definition with a subcommand, an alternative, repetition and a guard *)
 Example C04_example_oko :
